@@ -226,6 +226,30 @@ Tree(G, T, ctx, S, keep, fuel) ==
           [] OTHER -> [T EXCEPT !.tags = <<>>]
   IN [body EXCEPT !.tags = ctags \o @]
 
+RECURSIVE TreeEq(_, _)
+\* equality of meaning trees, kind first so that values of different sorts are never compared
+TreeEq(a, b) ==
+  /\ a.k = b.k
+  /\ a.tags = b.tags
+  /\ CASE a.k \in {"SEQ", "SET"} ->
+            /\ a.ext = b.ext
+            /\ Len(a.root) = Len(b.root)
+            /\ Len(a.adds) = Len(b.adds)
+            /\ LET ma == AllMembers(a)  mb == AllMembers(b) IN
+               /\ Len(ma) = Len(mb)
+               /\ \A i \in 1..Len(ma) :
+                    /\ ma[i].n = mb[i].n /\ ma[i].q = mb[i].q
+                    /\ TreeEq(ma[i].t, mb[i].t)
+                    /\ ma[i].q = "D" => ma[i].d = mb[i].d
+            /\ \A i \in 1..Len(a.adds) : a.adds[i].g = b.adds[i].g /\ Len(a.adds[i].ms) = Len(b.adds[i].ms)
+       [] a.k = "CHOICE" ->
+            /\ a.ext = b.ext
+            /\ Len(a.root) = Len(b.root)
+            /\ Len(a.adds) = Len(b.adds)
+            /\ \A i \in 1..Len(AllAlts(a)) : AllAlts(a)[i].n = AllAlts(b)[i].n /\ TreeEq(AllAlts(a)[i].t, AllAlts(b)[i].t)
+       [] a.k \in {"SEQOF", "SETOF"} -> a.sz = b.sz /\ TreeEq(a.e, b.e)
+       [] OTHER -> a = b
+
 ------------------------------------------------------------------------------
 (* Meaning and normal form                                                  *)
 
@@ -244,5 +268,87 @@ NFEnv(arr, S) ==
       def(x) == Tree(G, G.types[x], CtxOf(G, x), S, rec, 99)
   IN [tagdef |-> "E", extimp |-> FALSE, top |-> ProbeName,
       types |-> FoldLeft(LAMBDA acc, x : (x :> def(x)) @@ acc, ProbeName :> def(q), SetToSeq(rec))]
+
+------------------------------------------------------------------------------
+(* input classes of known findings (predicates over arrangements / values)  *)
+
+RECURSIVE HasCompOfBelow(_, _)
+\* a COMPONENTS OF inside T; top = T is the right-hand side of an assignment
+HasCompOfBelow(T, top) ==
+  CASE T.k \in {"SEQ", "SET"} ->
+         \/ ~top /\ \E i \in 1..Len(T.root) : T.root[i].q = "C"
+         \/ \E i \in 1..Len(AllMembers(T)) : AllMembers(T)[i].q # "C" /\ HasCompOfBelow(AllMembers(T)[i].t, FALSE)
+    [] T.k = "CHOICE" -> \E i \in 1..Len(AllAlts(T)) : HasCompOfBelow(AllAlts(T)[i].t, FALSE)
+    [] T.k \in {"SEQOF", "SETOF"} -> HasCompOfBelow(T.e, FALSE)
+    [] OTHER -> FALSE
+
+\* NestedComponentsOf: COMPONENTS OF in a SEQUENCE / SET that is not itself the right-hand side
+\* of a type assignment (codecs/compiler.py pre_process_components_of_type expands only those)
+NestedComponentsOf(arr) ==
+  \E i \in 1..Len(arr.mods) : \E a \in 1..Len(arr.mods[i].asg) : HasCompOfBelow(arr.mods[i].asg[a].t, TRUE)
+
+RECURSIVE SourceRootRefs(_, _, _)
+\* qualified names used by the (recursively expanded) root components of the source q
+SourceRootRefs(G, q, fuel) ==
+  LET src == G.types[BaseName(G, q)] IN
+  UNION {IF src.root[i].q = "C"
+         THEN (IF fuel = 0 THEN {} ELSE SourceRootRefs(G, src.root[i].t.name, fuel - 1))
+         ELSE RefsOf(src.root[i].t) : i \in 1..Len(src.root)}
+
+RECURSIVE CompOfSources(_)
+\* the sources of all COMPONENTS OF written in T
+CompOfSources(T) ==
+  CASE T.k \in {"SEQ", "SET"} ->
+         UNION {IF AllMembers(T)[i].q = "C" THEN {AllMembers(T)[i].t.name} ELSE CompOfSources(AllMembers(T)[i].t)
+                : i \in 1..Len(AllMembers(T))}
+    [] T.k = "CHOICE" -> UNION {CompOfSources(AllAlts(T)[i].t) : i \in 1..Len(AllAlts(T))}
+    [] T.k \in {"SEQOF", "SETOF"} -> CompOfSources(T.e)
+    [] OTHER -> {}
+
+\* ComponentsOfForeignScope: a component copied by COMPONENTS OF refers to a name that does not
+\* denote the same assignment in the using module (the copy is compiled in the using module)
+ComponentsOfForeignScope(arr) ==
+  LET G == GEnv(arr) IN
+  \E i \in 1..Len(arr.mods) : \E a \in 1..Len(arr.mods[i].asg) :
+     \E q \in CompOfSources(Qual(arr, i, arr.mods[i].asg[a].t)) :
+        \E r \in SourceRootRefs(G, q, 5) :
+           ~(Visible(arr.mods[i], G.loc[r]) /\ QName(arr, i, G.loc[r]) = r)
+
+\* RecursionAcrossModules: a reference that closes a reference cycle is written in another
+\* module than the one that defines the referenced type
+RecursionAcrossModules(arr) ==
+  LET G == GEnv(arr)  rec == RecNames(G) IN
+  \E x \in DOMAIN G.types : \E q \in RefsOf(G.types[x]) \cap rec :
+     /\ G.mi[q] # G.mi[x]
+     /\ x \in Reachable(G, q)
+
+ArrClasses == <<"NestedComponentsOf", "ComponentsOfForeignScope", "RecursionAcrossModules">>
+ArrClassHolds(name, arr) ==
+  CASE name = "NestedComponentsOf" -> NestedComponentsOf(arr)
+    [] name = "ComponentsOfForeignScope" -> ComponentsOfForeignScope(arr)
+    [] name = "RecursionAcrossModules" -> RecursionAcrossModules(arr)
+ArrApplicable(arr) == {ArrClasses[j] : j \in {j \in 1..Len(ArrClasses) : ArrClassHolds(ArrClasses[j], arr)}}
+
+RECURSIVE BoolDefaultHit(_, _, _, _)
+\* BoolDefaultViaReference: the value passes a component `x Ref DEFAULT TRUE|FALSE` whose type is
+\* written as a reference that denotes BOOLEAN, and the component is absent or equal to its
+\* default (parser.py convert_value converts the value notation by the *written* type name)
+BoolDefaultHit(G, T, ctx, v) ==
+  CASE T.k = "REF" -> BoolDefaultHit(G, G.types[T.name], CtxOf(G, T.name), v)
+    [] T.k \in {"SEQ", "SET"} ->
+         LET root == ExpandRoot(G, T, ctx, {}, {})
+             ms == [i \in 1..Len(root) |-> root[i].m] \o AddMembers(T.adds)
+         IN \E i \in 1..Len(ms) :
+              LET m == ms[i]  x == v[m.n] IN
+              \/ /\ m.q = "D" /\ m.t.k = "REF" /\ Base(G, m.t).k = "BOOL"
+                 /\ (~x.p \/ x.v = m.d)
+              \/ x.p /\ BoolDefaultHit(G, m.t, ctx, x.v)
+    [] T.k = "CHOICE" ->
+         LET alts == AllAlts(T) IN BoolDefaultHit(G, alts[MemberIndex(alts, v.a)].t, ctx, v.v)
+    [] T.k \in {"SEQOF", "SETOF"} -> \E i \in 1..Len(v) : BoolDefaultHit(G, T.e, ctx, v[i])
+    [] OTHER -> FALSE
+
+BoolDefaultViaReference(arr, v) ==
+  LET G == GEnv(arr)  q == ProbeQ(arr) IN BoolDefaultHit(G, G.types[q], CtxOf(G, q), v)
 
 =============================================================================
